@@ -64,27 +64,42 @@ func renderStop(kind string) string {
 	panic("unknown construct " + kind)
 }
 
-func render8(items []qItem) string {
+// stanzaLocal is the stanza name used by rendering style st (the property speaks of stanzas of
+// every kind; attribute order is the peer's choice)
+func stanzaLocal(st int) string {
+	return [...]string{"message", "message", "presence", "iq"}[st%4]
+}
+
+func render8(items []qItem, st int) string {
 	var b strings.Builder
 	for _, it := range items {
 		switch it.K {
 		case "el":
-			local := "message"
-			if it.Kind == "foreign" {
-				local = "x"
-				fmt.Fprintf(&b, `<x xmlns="%s"`, nsOther)
-			} else {
-				b.WriteString(`<message type="chat"`)
-			}
+			local := stanzaLocal(st)
+			from := ""
 			switch it.From {
 			case "own":
-				fmt.Fprintf(&b, ` from="%s"`, ownBare)
+				from = fmt.Sprintf(` from="%s"`, ownBare)
 			case "ownfull":
-				fmt.Fprintf(&b, ` from="%s"`, ownFull)
+				from = fmt.Sprintf(` from="%s"`, ownFull)
 			case "peer":
-				fmt.Fprintf(&b, ` from="%s"`, peerAddr)
+				from = fmt.Sprintf(` from="%s"`, peerAddr)
 			}
-			fmt.Fprintf(&b, ` to="%s">`, ownFull)
+			if it.Kind == "foreign" {
+				local = "x"
+				fmt.Fprintf(&b, `<x xmlns="%s"%s to="%s">`, nsOther, from, ownFull)
+			} else {
+				switch st % 4 {
+				case 0: // from right after the type
+					fmt.Fprintf(&b, `<message type="chat"%s to="%s">`, from, ownFull)
+				case 1: // from last, after id and type
+					fmt.Fprintf(&b, `<message id="m1" type="chat" to="%s"%s>`, ownFull, from)
+				case 2:
+					fmt.Fprintf(&b, `<presence type="unavailable" id="p1" xml:lang="en"%s>`, from)
+				case 3: // a response nobody waits for
+					fmt.Fprintf(&b, `<iq to="%s" id="zq" type="result"%s>`, ownFull, from)
+				}
+			}
 			for _, t := range it.Body {
 				switch t[0] {
 				case "s":
@@ -173,8 +188,10 @@ func isSubseq(a, b [][]string) bool {
 }
 
 // checkInv compares one observed invocation with the specification's expectation.
+var wantStanza = "message"
+
 func checkInv(exp qInv, obs obsInv) string {
-	wantKind := map[string]string{"stanza": "message", "foreign": "x"}[exp.Kind]
+	wantKind := map[string]string{"stanza": wantStanza, "foreign": "x"}[exp.Kind]
 	if obs.Kind != wantKind {
 		return fmt.Sprintf("handler invoked for <%s>, expected <%s>", obs.Kind, wantKind)
 	}
@@ -255,8 +272,13 @@ func readMain(args []string) {
 			if err := json.Unmarshal(line, &v); err != nil {
 				die("vector: %v: %s", err, line)
 			}
-			input := render8(v.Items)
-			for _, nsSym := range []string{"client", "server"} {
+			for ri, nsSym := range []string{"client", "server", "client", "server"} {
+				style := ri
+				if ri >= 2 {
+					style = 2 + (evals/2)%2 // alternate presence / iq-result between vectors
+				}
+				wantStanza = stanzaLocal(style)
+				input := render8(v.Items, style)
 				evals++
 				ns := stanzaNSOf(nsSym)
 				log := []obsInv{}
